@@ -1070,26 +1070,29 @@ Definition merge_used (mine theirs : list (bytes * list bytes)) : list (bytes * 
                | Some found => aset k (found ++ filter (fun x => negb (mem x found)) l) acc
                end) theirs mine.
 
-(* getUsedFuncs(""): everything reachable from top-level code in the recorded call graph *)
-Fixpoint reach (u : list (bytes * list bytes)) (fuel : nat) (work : list bytes) (seen : list bytes) : list bytes :=
-  match fuel with
-  | O => seen
-  | S f =>
-      match work with
-      | [] => seen
-      | x :: w =>
+(* getUsedFuncs(""): everything reachable from top-level code in the recorded call graph
+   (worklist closure; None = fuel exhausted, excluded by the correspondence check) *)
+Fixpoint reach (u : list (bytes * list bytes)) (fuel : nat) (work : list bytes) (seen : list bytes) : option (list bytes) :=
+  match work with
+  | [] => Some seen
+  | x :: w =>
+      match fuel with
+      | O => None
+      | S f =>
           if mem x seen then reach u f w seen
           else reach u f (match aget x u with Some l => l ++ w | None => w end) (x :: seen)
       end
   end.
 
-Definition used_funcs (u : list (bytes * list bytes)) : list bytes :=
+Definition used_funcs (u : list (bytes * list bytes)) : option (list bytes) :=
   let edges := fold_right (fun kv n => (length (snd kv) + n)%nat) 0%nat u in
   reach u (S (length u + edges + edges)) (match aget [] u with Some l => l | None => [] end) [].
 
-Definition clean_program (u : list (bytes * list bytes)) (body : list stmt) : list stmt :=
-  let keep := used_funcs u in
-  filter (fun s => match s with SFunc name _ _ _ _ => mem name keep | _ => true end) body.
+Definition clean_program (u : list (bytes * list bytes)) (body : list stmt) : option (list stmt) :=
+  match used_funcs u with
+  | Some keep => Some (filter (fun s => match s with SFunc name _ _ _ _ => mem name keep | _ => true end) body)
+  | None => None
+  end.
 
 Inductive pres :=
 | POk (body : list stmt) (used : list (bytes * list bytes)) (prefix : bytes)
@@ -1130,13 +1133,11 @@ Section Files.
         end
     end.
 
-  Fixpoint parse_file (depth : nat) (stack : list bytes) (path : bytes) (imported : bool) : pres :=
+  (* parser.parse on a file whose entry (content, prefix) has been looked up *)
+  Fixpoint parse_entry (depth : nat) (stack : list bytes) (path : bytes) (imported : bool) (fe : fentry) : pres :=
     match depth with
     | O => PFuel
     | S depth' =>
-        match lookup_file path with
-        | None => PErr
-        | Some fe =>
             match parser_input (tokenize (fe_content fe)) with
             | None => PErr
             | Some ts =>
@@ -1164,7 +1165,10 @@ Section Files.
                              end) ;;
                   let '(abs, alias) := target in
                   guard (negb (mem abs (stack ++ [path]))) ;;;
-                  match parse_file depth' (stack ++ [path]) abs true with
+                  match (match lookup_file abs with
+                         | Some fe' => parse_entry depth' (stack ++ [path]) abs true fe'
+                         | None => PErr          (* os.Stat fails *)
+                         end) with
                   | PFuel => nofuel
                   | PErr => fail
                   | POk body iused iprefix =>
@@ -1202,14 +1206,22 @@ Section Files.
                   body <- p_block_content prefix [EOF] no_callback c3 ScProgram fuel ;;
                   ret (istmts ++ body) in
                 match whole (mkPS ts [] []) with
-                | Ok body s => if imported then POk body (used s) prefix else POk (clean_program (used s) body) (used s) prefix
+                | Ok body s =>
+                    if imported then POk body (used s) prefix
+                    else match clean_program (used s) body with
+                         | Some b => POk b (used s) prefix
+                         | None => PFuel
+                         end
                 | Err => PErr
                 | Fuel => PFuel
                 end
             end
-        end
     end.
 
   (* parser.Parse(path) *)
-  Definition parse_main (path : bytes) : pres := parse_file (S (length (e_fs E))) [] path false.
+  Definition parse_main (path : bytes) : pres :=
+    match lookup_file path with
+    | Some fe => parse_entry (S (length (e_fs E))) [] path false fe
+    | None => PErr
+    end.
 End Files.
